@@ -182,6 +182,58 @@ def rule_id(repo):
 
 
 @guarded
+def rule_wrap(repo):
+    """The functional spellings pp.Mul / Act / Inv / Retr / Adj / AdjT / Jinvp / Exp / Log / matrix ... are the methods of their FIRST argument with the
+    remaining arguments in declared order (`def Mul(x, y): return x @ y`).  A product is not commutative: a wrapper that hands its operands on in
+    another order, or dispatches on a later argument, returns Y @ X under the name Mul(X, Y) while X @ Y itself stays right."""
+    res = RuleResult('C03.WRAP', 'every functional alias in pypose.lietensor.utils / basics forwards to its first argument (method of the same name or the '
+                     'operator) with the other arguments in declared order, on every return path', floor=8)
+    OPER = {'Mul': (ast.MatMult, ast.Mult), 'mul': (ast.Mult, ast.MatMult), 'matmul': (ast.MatMult,), 'add': (ast.Add,)}
+    for modname in ('pypose.lietensor.utils', 'pypose.lietensor.basics'):
+        for f in repo.module(modname).functions.values():
+            if f.cls is not None or f.name.startswith('_'):
+                continue
+            pp_ = f.pos_params
+            if not pp_:
+                continue
+            rets = returns_of(f.node)
+            verdicts = []
+            for r in rets:
+                v = rv(f.node, r)
+                ok = None
+                why = ''
+                if isinstance(v, ast.BinOp) and isinstance(v.op, OPER.get(f.name, ())):
+                    ok = len(pp_) >= 2 and dotted(v.left) == pp_[0] and dotted(v.right) == pp_[1]
+                    why = 'operands `%s`, `%s`' % (src(v.left), src(v.right))
+                elif isinstance(v, ast.Call) and isinstance(v.func, ast.Attribute) and v.func.attr in (f.name, f.name.rstrip('_') + '_', f.name.lower()):
+                    recv = v.func.value
+                    args = [dotted(a) for a in v.args] + [dotted(k.value) for k in v.keywords]
+                    if dotted(recv) == pp_[0]:
+                        want = [p for p in pp_[1:] if p in args]
+                        ok = [a for a in args if a in pp_[1:]] == want
+                        why = 'receiver `%s`, arguments %s' % (src(recv), args)
+                    elif (dotted(recv) or '').endswith('.ltype'):
+                        # type-level call T.Op(X, ...): the operands follow in declared order and the type is the first operand's
+                        got = [a for a in args if a in pp_]
+                        ok = dotted(recv) == pp_[0] + '.ltype' and got == [p for p in pp_ if p in got]
+                        why = 'type-level call on `%s` with %s' % (src(recv), args)
+                    else:
+                        ok = False
+                        why = 'receiver `%s` is not the first argument `%s`' % (src(recv), pp_[0])
+                if ok is None:
+                    continue
+                verdicts.append((r, ok, why))
+            if not verdicts:
+                continue
+            res.inst({'function': f.fq, 'forwards': [w for _, _, w in verdicts], 'in order': all(o for _, o, _ in verdicts)}, f.fq)
+            for r, ok, why in verdicts:
+                if not ok:
+                    res.add(Finding('C03.WRAP', f, 'pp.%s%s forwards as %s: the operands reach the operation in another order / on another receiver than '
+                                    'declared, so pp.%s(X, Y) is not X.%s(Y)' % (f.name, tuple(pp_), why, f.name, f.name), node=r))
+    return res
+
+
+@guarded
 def rule_sb(repo):
     res = RuleResult('C03.SB', 'forward isomorphism: Sim3 {Mul, Inv, Act, Act4} equal SE3\'s under SO3_ -> RxSO3_, and RxSO3_Act4 equals '
                      'SO3_Act4 under the same renaming (inlined return expressions compared after alpha-renaming)', floor=5)
@@ -243,43 +295,74 @@ def rule_dt(repo):
 
 
 def _rules_core(repo, tier):
-    return [rule_layout(repo, 'C03.LT', lt_entries(), floor=16), rule_acc(repo), rule_id(repo), rule_sb(repo), rule_dt(repo), rule_nosign(repo), rule_mat(repo)]
+    return [rule_layout(repo, 'C03.LT', lt_entries(), floor=16), rule_acc(repo), rule_id(repo), rule_sb(repo), rule_dt(repo), rule_nosign(repo), rule_mat(repo), rule_wrap(repo)]
 
 
 @guarded
-def rule_mat(repo):
-    res = RuleResult('C03.MAT', 'matrix() is the action on the basis vectors: Act applied to an identity matrix of the representation size '
-                     '(4 in general, 3 for SO3/so3), transposed back; algebra types go through Exp first; LieTensor.matrix dispatches to the type', floor=4)
-    for cname, size, via_exp in (('LieType', 4, 'conditional'), ('SO3Type', 3, False), ('so3Type', 3, True)):
-        f = repo.func(LT, cname + '.matrix')
+def rule_mat(repo, rid='C03.MAT', strict=False):
+    """strict=False (C03, values): matrix() is the transposed action on the identity of the representation size, OR one of the layout-checked matrix
+    helpers of operation.py of the documented size (3x3 only for SO3/so3, 4x4 otherwise) - both give the same matrix.
+    strict=True (C04, gradients): only the Act form: the helpers are plain torch code, autograd through them differentiates the raw quaternion /
+    translation / scale coordinates instead of the left perturbation every consumer of X.grad assumes."""
+    res = RuleResult(rid, ('matrix() is differentiated through Act (hand-written left-perturbation backward): the transposed action on the identity basis, '
+                           'not a plain-torch matrix helper' if strict else
+                           'matrix() is the action on the basis vectors (Act applied to an identity of the representation size, transposed back) or a '
+                           'layout-checked matrix helper of the documented size (3 for SO3/so3, 4 otherwise); algebra types go through Exp first; '
+                           'LieTensor.matrix dispatches to the type'), floor=4)
+    # the method each concrete type resolves `matrix` to (along its MRO), judged once per method
+    todo = {}
+    for T, size, is_alg in [(G + 'Type', 3 if G == 'SO3' else 4, False) for G in GROUPS] + [(ALG[G] + 'Type', 3 if G == 'SO3' else 4, True) for G in GROUPS]:
+        ci = repo.cls(LT, T)
+        m = repo.find_method(ci, 'matrix')
+        if m is None:
+            raise AnalysisError('%s: %s has no matrix method' % (rid, T))
+        todo.setdefault(m.fq, (m, set(), set()))
+        todo[m.fq][1].add(size)
+        todo[m.fq][2].add(is_alg)
+    for fq, (f, sizes, algs) in sorted(todo.items()):
+        cname = f.qual.split('.')[0]
         rets = returns_of(f.node)
-        v = rv(f.node, rets[0]) if len(rets) == 1 else None
-        ok = False
-        why = 'not <X>.unsqueeze(-2).Act(I).transpose(-1, -2)'
-        if isinstance(v, ast.Call) and isinstance(v.func, ast.Attribute) and v.func.attr == 'transpose' and \
-                sorted(src(a) for a in v.args) == ['-1', '-2']:
-            act = v.func.value
-            if isinstance(act, ast.Call) and isinstance(act.func, ast.Attribute) and act.func.attr == 'Act' and len(act.args) == 1:
-                basis, recv = act.args[0], act.func.value
-                eyes = [n for n in ast.walk(basis) if isinstance(n, ast.Call) and dotted(n.func) == 'torch.eye']
-                n_ok = bool(eyes) and eyes[0].args and src(eyes[0].args[0]) == str(size)
-                unsq = isinstance(recv, ast.Call) and isinstance(recv.func, ast.Attribute) and recv.func.attr == 'unsqueeze' and \
-                    recv.args and src(recv.args[0]) == '-2'
-                base = recv.func.value if unsq else None
-                has_exp = base is not None and any(isinstance(n, ast.Call) and isinstance(n.func, ast.Attribute) and n.func.attr == 'Exp' for n in ast.walk(base))
-                exp_ok = has_exp if via_exp is True else (not has_exp if via_exp is False else isinstance(base, ast.IfExp) and has_exp)
-                ok = n_ok and unsq and exp_ok
-                why = None if ok else 'basis size ok: %s, acts on X.unsqueeze(-2): %s, Exp handling ok: %s' % (n_ok, unsq, exp_ok)
-        res.inst({'function': f.fq, 'basis': size, 'ok': ok}, f.fq)
+        vals = [rv(f.node, r) for r in rets]
+        ok, why = False, 'not <X>.unsqueeze(-2).Act(I).transpose(-1, -2)'
+        size = sorted(sizes)[0] if len(sizes) == 1 else None
+        act_forms = 0
+        for v in vals:
+            if isinstance(v, ast.Call) and isinstance(v.func, ast.Attribute) and v.func.attr == 'transpose' and sorted(src(a) for a in v.args) == ['-1', '-2']:
+                act = v.func.value
+                if isinstance(act, ast.Call) and isinstance(act.func, ast.Attribute) and act.func.attr == 'Act' and len(act.args) == 1:
+                    basis, recv = act.args[0], act.func.value
+                    eyes = [n for n in ast.walk(basis) if isinstance(n, ast.Call) and dotted(n.func) == 'torch.eye']
+                    esz = src(eyes[0].args[0]) if eyes and eyes[0].args else None
+                    n_ok = esz is not None and (size is None or esz == str(size))
+                    unsq = isinstance(recv, ast.Call) and isinstance(recv.func, ast.Attribute) and recv.func.attr == 'unsqueeze' and recv.args and src(recv.args[0]) == '-2'
+                    base = recv.func.value if unsq else None
+                    has_exp = base is not None and any(isinstance(n, ast.Call) and isinstance(n.func, ast.Attribute) and n.func.attr == 'Exp' for n in ast.walk(base))
+                    exp_ok = has_exp if algs == {True} else (not has_exp if algs == {False} else isinstance(base, ast.IfExp) and has_exp)
+                    if n_ok and unsq and exp_ok:
+                        act_forms += 1
+                    else:
+                        why = 'basis size ok: %s, acts on X.unsqueeze(-2): %s, Exp handling ok: %s' % (n_ok, unsq, exp_ok)
+            elif isinstance(v, ast.Call) and isinstance(v.func, ast.Attribute) and v.func.attr == 'matrix' and algs == {True} and \
+                    any(isinstance(n, ast.Call) and isinstance(n.func, ast.Attribute) and n.func.attr == 'Exp' for n in ast.walk(v.func.value)):
+                act_forms += 1          # algebra type: Exp first, then the group's matrix (judged on its own)
+        ok = bool(vals) and act_forms == len(vals)
+        if not ok and not strict:
+            helper_calls = [n for v in vals if v is not None for n in ast.walk(v) if isinstance(n, ast.Call) and isinstance(n.func, ast.Name) and '_Matrix' in n.func.id]
+            plain = all(v is not None and not any(isinstance(n, ast.Subscript) and not isinstance(n.value, ast.Name) for n in ast.walk(v)) for v in vals)
+            if helper_calls and plain and size is not None:
+                bad = [h.func.id for h in helper_calls if (h.func.id.endswith('_Matrix4x4')) != (size == 4)]
+                ok = not bad
+                why = None if ok else 'uses %s where the documented representation is %dx%d' % (bad, size, size)
+        res.inst({'function': f.fq, 'serves representation sizes': sorted(sizes), 'ok': ok}, f.fq)
         if not ok:
-            res.add(Finding('C03.MAT', f, '%s.matrix is not the transposed action on the %dx%d identity (%s)' % (cname, size, size, why), construct='matrix'))
+            res.add(Finding(rid, f, '%s.matrix is not the transposed action on the identity basis (%s)' % (cname, why), construct='matrix'))
     f = repo.func(LT, 'LieTensor.matrix')
     rets = returns_of(f.node)
     v = rv(f.node, rets[0]) if len(rets) == 1 else None
     ok = isinstance(v, ast.Call) and dotted(v.func) == 'self.ltype.matrix' and [dotted(a) for a in v.args] == ['self']
     res.inst({'function': f.fq, 'dispatches': ok}, f.fq)
     if not ok:
-        res.add(Finding('C03.MAT', f, 'LieTensor.matrix must dispatch to self.ltype.matrix(self)', construct='dispatch'))
+        res.add(Finding(rid, f, 'LieTensor.matrix must dispatch to self.ltype.matrix(self)', construct='dispatch'))
     return res
 
 
